@@ -8,7 +8,7 @@ import math, pickle
 from fractions import Fraction
 import numpy as np
 
-from .script_rng import scripted, below, above, ScriptError
+from .script_rng import scripted, below, above, ScriptError, Stream, _make_functions
 from .tlc import MachineryError
 
 
@@ -96,8 +96,132 @@ class TableTarget:
         return self.tab[k][1].copy()
 
 
+# randomness sources (field cfg.src of the specification) ------------------------------------------------------------
+FILL = 0.372931        # handed out when more normals are requested than the noise vector has (never a lattice noise)
+
+
+class ComponentStream(Stream):
+    """Scripted draws as a flat stream of scalars per kind: the noise of the specification is a d-vector of INDEPENDENT
+    components, so a request of shape S takes prod(S) consecutive components and a request WITHOUT a size takes ONE.
+    A kernel that asks its source for one value where the mechanism needs d therefore proposes a point that differs from
+    the specification's (conformance mismatch) - it is not a machinery error.  Requests beyond the scripted noise are
+    served with FILL (counted in `short`); the uniform of a decision must be scripted.  free-running mode (warm-up runs
+    of the stateless interface): values of a private seeded generator, not logged."""
+
+    def __init__(self, name):
+        super().__init__({}, None, name)
+        self.short = 0
+        self.free = None
+        self.collapse = False      # binding self-test: every normal request is served with ONE value (shared by all components)
+
+    def load(self, normals, uniforms):
+        self.q = {"normal": [float(v) for a in normals for v in np.asarray(a, dtype=float).reshape(-1)],
+                  "uniform": [float(v) for a in uniforms for v in np.asarray(a, dtype=float).reshape(-1)]}
+        self.log = []
+        self.short = 0
+
+    def count(self, kind):
+        return sum(1 for q in self.log if q[1] == kind)
+
+    def calls(self):
+        return [[q[0], list(q[2])] for q in self.log]
+
+    def take(self, fn, kind, shape, args=None):
+        shape = tuple(shape)
+        n = int(np.prod(shape)) if shape else 1
+        if self.free is not None:
+            if kind not in ("normal", "uniform"):
+                raise ScriptError("%s: request %s of kind %r cannot be served" % (self.name, fn, kind))
+            v = self.free.standard_normal(n) if kind == "normal" else self.free.uniform(size=n)
+            return float(v[0]) if not shape else v.reshape(shape)
+        self.log.append((fn, kind, shape, args))
+        if kind not in ("normal", "uniform"):
+            raise ScriptError("%s: request %s%r of kind %r is not scripted" % (self.name, fn, shape, kind))
+        lst = self.q.setdefault(kind, [])
+        if kind == "uniform" and len(lst) < n:
+            raise ScriptError("%s: request %s%r of kind 'uniform' but the script is exhausted" % (self.name, fn, shape))
+        if kind == "normal" and self.collapse:
+            vals = [lst.pop(0) if lst else FILL] * n
+        else:
+            vals = []
+            for _ in range(n):
+                if lst:
+                    vals.append(lst.pop(0))
+                else:
+                    vals.append(FILL)
+                    self.short += 1
+        return float(vals[0]) if not shape else np.array(vals, dtype=float).reshape(shape)
+
+
+class SourceRNG:
+    """Stand-in for a numpy RandomState / Generator handed to the code as rng= or used by a user-supplied proposal /
+    prior object / callable (script_rng.StubRNG with the component-stream rule): records (function, shape) of every call"""
+
+    def __init__(self, name="stub-generator"):
+        self.stream = ComponentStream(name)
+        for k, v in _make_functions(self.stream).items():
+            setattr(self, k, v)
+
+
+# (kernel, source) -> realisations; the first one carries no /real= in the signatures
+SOURCE_REALS = {
+    ("RW", "proposal"): ("user", "gaussrng", "normalrng"),     # UserDefinedDistribution(sample_func) | Gaussian | Normal drawing from the generator
+    ("CW", "proposal"): ("user", "meanstd"),                   # Normal conditional on (location, scale) | on (mean, std) (stateless interface only)
+    ("CW", "callable"): ("user",),
+    ("PCN", "prior"): ("user", "normalrng", "tuple"),          # Gaussian prior | Normal prior | (likelihood, user-defined prior) (stateless, m = 0)
+    ("MALA", "rng"): ("user", "ula"),                          # rng= of cuqi.sampler.MALA | cuqi.sampler.ULA (proposal only)
+}
+
+
+def _via(base, G):
+    """subclass of a CUQIpy distribution whose sample() draws from the generator G: the rng= argument of the
+    distribution's own _sample (the samplers call proposal.sample(1) / prior.sample(1) without one)"""
+    class Via(base):
+        def _sample(self, N=1, rng=None):
+            return super()._sample(N, rng=G if rng is None else rng)
+    Via.__name__ = base.__name__ + "Via"
+    return Via
+
+
+def source_kwargs(cfg, real, G):
+    """constructor arguments that realise the randomness source of the configuration (not the target: build_target)"""
+    import cuqi
+    k, src, d = cfg["k"], cfg.get("src", "global"), cfg["d"]
+    if src == "global":
+        return {}
+    if src == "rng":
+        return {"rng": G}
+    if src == "proposal" and k == "RW":
+        if real == "gaussrng":
+            return {"proposal": _via(cuqi.distribution.Gaussian, G)(np.zeros(d), 1)}
+        if real == "normalrng":
+            return {"proposal": _via(cuqi.distribution.Normal, G)(np.zeros(d), 1)}
+        return {"proposal": cuqi.distribution.UserDefinedDistribution(dim=d, sample_func=lambda: G.standard_normal(d),
+                                                                      is_symmetric=True)}
+    if src == "proposal" and k == "CW":
+        N = _via(cuqi.distribution.Normal, G)
+        if real == "meanstd":
+            return {"proposal": N(mean=None, std=None, geometry=d)}
+        return {"proposal": N(mean=lambda location: location, std=lambda scale: scale, geometry=d)}
+    if src == "callable" and k == "CW":
+        return {"proposal": lambda x, s: np.asarray(x, dtype=float) + np.asarray(s, dtype=float) * G.standard_normal(d)}
+    if src == "prior" and k == "PCN":
+        return {}
+    raise MachineryError("the binding has no realisation of source %r for kernel %s" % (src, k))
+
+
 # realisations of a configuration ------------------------------------------------------------------------------
 def realisations(cfg):
+    src = cfg.get("src", "global")
+    if src != "global":
+        out = list(SOURCE_REALS.get((cfg["k"], src), ()))
+        if not out:
+            raise MachineryError("the binding has no realisation of source %r for kernel %s" % (src, cfg["k"]))
+        if cfg["iface"] != "leg":
+            out = [r for r in out if r not in ("meanstd", "tuple", "ula")]
+        if cfg["m"] != 0:
+            out = [r for r in out if r != "tuple"]      # a prior without a fixed mean is taken as zero-mean by the sampler
+        return out
     out = ["user"]
     if cfg["k"] == "PCN" and cfg["tgt"] == "quad" and cfg["d"] == 1:
         out.append("gauss")                # a genuine Gaussian likelihood (data 1, identity model, variance 2/3)
@@ -106,8 +230,9 @@ def realisations(cfg):
     return out
 
 
-def build_target(cfg, rows, real="user"):
-    """-> (target object handed to the sampler, TableTarget or None, constant added to the table by the realisation)"""
+def build_target(cfg, rows, real="user", G=None):
+    """-> (target object handed to the sampler, TableTarget or None, constant added to the table by the realisation)
+    G: the generator of source "prior" (the prior object of the posterior draws from it)"""
     import cuqi
     d = cfg["d"]
     T = TableTarget(d, rows)
@@ -120,6 +245,15 @@ def build_target(cfg, rows, real="user"):
     if cfg["k"] != "PCN":
         return cuqi.distribution.UserDefinedDistribution(dim=d, logpdf_func=lp, gradient_func=gr), T, 0.0
     prior = cuqi.distribution.Gaussian(float(cfg["m"]) * np.ones(d), 1.0)
+    if cfg.get("src", "global") == "prior" and G is not None:
+        m = float(cfg["m"])
+        if real == "normalrng":
+            prior = _via(cuqi.distribution.Normal, G)(m * np.ones(d), 1.0)
+        elif real == "tuple":
+            # the documented form of cuqi.sampler.pCN: a user-defined prior given by its sample function
+            prior = cuqi.distribution.UserDefinedDistribution(dim=d, sample_func=lambda: G.normal(m, 1.0, size=(d, 1)))
+        else:
+            prior = _via(cuqi.distribution.Gaussian, G)(m * np.ones(d), 1.0)
     if real == "gauss":
         def fwd(x):
             T.tick("lp")
@@ -174,13 +308,76 @@ def _flag(acc, name):
 UNUSED_DRAWS = {"transitions": 0, "example": None}
 
 
-class ExpDriver:
+class _Streams:
+    """the scripted streams of one transition.  Source "global": numpy's module functions (script_rng.scripted).  Any other
+    source: the generator G handed to the code carries the noise (and, for rng=, the uniform); numpy's global stream carries
+    the same values as a component stream, so that WHICH stream was used is decided from the recorded calls and the
+    transition itself is judged against the specification in either case."""
+
+    def _init_source(self, cfg):
+        self.src = cfg.get("src", "global")
+        self.G = SourceRNG() if self.src != "global" else None
+        self.glob = None
+        self.drop_source = False      # binding self-test: the source option is not handed to the sampler
+
+    def _scripted(self, normals, uniforms):
+        if self.G is None:
+            return scripted({"normal": list(normals), "uniform": list(uniforms)})
+        self.glob = ComponentStream("numpy-global")
+        self.glob.load(normals, uniforms)
+        self.G.stream.load(normals, uniforms if self.src == "rng" else [])
+        return scripted(stream=self.glob)
+
+    def _left(self, st):
+        """scripted draws not consumed (source "global" only: with a generator both streams are loaded)"""
+        return st.remaining() if self.G is None else {}
+
+    def source_use(self):
+        """recorded calls of the transition just made: how many noise / uniform requests went to the given generator and
+        how many to numpy's global stream"""
+        g, n = self.G.stream, self.glob
+        return {"stub_normal": g.count("normal"), "stub_uniform": g.count("uniform"), "glob_normal": n.count("normal"),
+                "glob_uniform": n.count("uniform"), "stub_calls": g.calls(), "glob_calls": n.calls(),
+                "short": g.short + n.short}
+
+    def _kwargs(self):
+        return {} if self.drop_source else source_kwargs(self.cfg, self.real, self.G)
+
+
+# which stream the kernels really drew from, per (kernel/iface/src[/real=..]) (source facet; filled by run_behaviour)
+def new_source_stats():
+    return {"driven": {}, "distinct": {}, "percomp": {}, "calls": {}, "ignored": {}, "global_also": {}, "uniform_from": {},
+            "over_asked": {}, "unadjusted": 0}
+
+
+SOURCE_DOC = {   # the statement of the anchored docstrings that the source option is judged by
+    "proposal": "proposal : The proposal to sample from (cuqi.sampler.MH / CWMH, cuqi.experimental.mcmc.MH / CWMH)",
+    "callable": "proposal : ... If a callable method it should provide a single independent sample from proposal distribution (CWMH)",
+    "prior": "pCN proposal sqrt(1-s^2) x + s xi with xi a sample of the prior of the target (cuqi.sampler.pCN docstring example: "
+             "prior given by its sample function)",
+}
+
+
+def noise_vector(cfg, pairs):
+    """the noise vector of one transition as exact fractions (CW: component j of the j-th proposal of the sweep)"""
+    if cfg["k"] == "CW":
+        return [frac(p["xi"][p["j"] - 1]) for p, _ in pairs]
+    return [frac(q) for q in pairs[0][0]["xi"]]
+
+
+def distinct_noise(cfg, pairs):
+    return len(set(noise_vector(cfg, pairs))) > 1
+
+
+class ExpDriver(_Streams):
     """cuqi.experimental.mcmc: step() / warmup(1) / get_state / set_state."""
 
-    def __init__(self, cfg, rows, sv0, real="user"):
+    def __init__(self, cfg, rows, sv0, real="user", drop_source=False):
         import cuqi
         self.cfg, self.rows, self.real = cfg, rows, real
-        self.target, self.T, self.const = build_target(cfg, rows, real)
+        self._init_source(cfg)
+        self.drop_source = drop_source
+        self.target, self.T, self.const = build_target(cfg, rows, real, None if drop_source else self.G)
         # realisation "ula" (abort facet only): the unadjusted Langevin kernel on the configuration of a MALA behaviour
         self.cls = _cls(cuqi.experimental.mcmc, "ULA" if real == "ula" else EXP[cfg["k"]])
         self.sv0 = sv0
@@ -189,7 +386,7 @@ class ExpDriver:
         self.ref = None
 
     def construct(self):
-        self.s = self.cls(self.target, scale=scale_value(self.cfg, self.sv0), initial_point=self.x0.copy())
+        self.s = self.cls(self.target, scale=scale_value(self.cfg, self.sv0), initial_point=self.x0.copy(), **self._kwargs())
         self.s.initialize()
 
     def abort(self, normals, uniforms, kind, n, how="step"):
@@ -236,7 +433,7 @@ class ExpDriver:
         return out
 
     def transition(self, normals, uniforms, warm):
-        with scripted({"normal": list(normals), "uniform": list(uniforms)}) as st:
+        with self._scripted(normals, uniforms) as st:
             if warm:
                 # warmup(1) = step . tune(1, 0) . append; the value step() returns is captured by an instance-level
                 # wrapper (no dependence on the private history key `_acc`)
@@ -256,7 +453,7 @@ class ExpDriver:
                 acc = seen[0]
             else:
                 acc = self.s.step()
-        return _flag(acc, self.cls.__name__), st.remaining()
+        return _flag(acc, self.cls.__name__), self._left(st)
 
     def set_scale(self, sv):
         self.s.scale = scale_value(self.cfg, sv)
@@ -267,14 +464,17 @@ class ExpDriver:
         self.s.set_state(st)
 
 
-class LegDriver:
+class LegDriver(_Streams):
     """cuqi.sampler: single_update(x, cached...) ; the caller threads the state (as _sample does)."""
 
-    def __init__(self, cfg, rows, sv0, real="user"):
+    def __init__(self, cfg, rows, sv0, real="user", drop_source=False):
         import cuqi
         self.cfg, self.rows, self.real = cfg, rows, real
-        self.target, self.T, self.const = build_target(cfg, rows, real)
-        self.cls = _cls(cuqi.sampler, LEG[cfg["k"]])
+        self._init_source(cfg)
+        self.drop_source = drop_source
+        self.target, self.T, self.const = build_target(cfg, rows, real, None if drop_source else self.G)
+        # realisation "ula" (source facet only): the unadjusted Langevin kernel with the rng= option of a MALA behaviour
+        self.cls = _cls(cuqi.sampler, "ULA" if real == "ula" else LEG[cfg["k"]])
         self.sv0 = sv0
         self.x0 = np.array(cfg["x0"], dtype=float)
         self.s = None
@@ -285,7 +485,7 @@ class LegDriver:
         from .zoo import quiet
         k = self.cfg["k"]
         with quiet():
-            self.s = self.cls(self.target, scale=scale_value(self.cfg, self.sv0), x0=self.x0.copy())
+            self.s = self.cls(self.target, scale=scale_value(self.cfg, self.sv0), x0=self.x0.copy(), **self._kwargs())
         if not hasattr(self.s, "single_update"):
             raise MachineryError("legacy %s has no single_update" % self.cls.__name__)
         x = self.x0.copy()
@@ -326,10 +526,10 @@ class LegDriver:
             self.st["cgrad"] = np.array(new["cgrad"], dtype=float).reshape(-1).copy()
 
     def transition(self, normals, uniforms, warm):
-        with scripted({"normal": list(normals), "uniform": list(uniforms)}) as st:
+        with self._scripted(normals, uniforms) as st:
             new, acc = self._single_update()
         self._thread(new)
-        return _flag(acc, self.cls.__name__), st.remaining()
+        return _flag(acc, self.cls.__name__), self._left(st)
 
     def abort(self, normals, uniforms, kind, n, how="step"):
         """single_update during which the n-th target evaluation of `kind` raises.  The state is threaded by the caller
@@ -391,8 +591,14 @@ class LegDriver:
         try:
             np.random.seed(12345)
             ev = (len(self.T.evals), len(self.T.gevals)) if self.T is not None else None
-            with quiet():
-                self.s.sample_adapt(10, 0)
+            if self.G is not None:
+                self.G.stream.free = np.random.RandomState(54321)      # the warm-up run draws freely from the given generator
+            try:
+                with quiet():
+                    self.s.sample_adapt(10, 0)
+            finally:
+                if self.G is not None:
+                    self.G.stream.free = None
             if ev:
                 del self.T.evals[ev[0]:], self.T.gevals[ev[1]:]
         finally:
@@ -403,8 +609,8 @@ class LegDriver:
         raise MachineryError("the stateless interface has no state reload")
 
 
-def driver(cfg, rows, sv0, real="user"):
-    return (ExpDriver if cfg["iface"] == "exp" else LegDriver)(cfg, rows, sv0, real)
+def driver(cfg, rows, sv0, real="user", drop_source=False):
+    return (ExpDriver if cfg["iface"] == "exp" else LegDriver)(cfg, rows, sv0, real, drop_source)
 
 
 def fresh_eval(drv, x):
@@ -531,6 +737,8 @@ def _base(prefix, cfg, real):
     b = "%s/%s/%s/d=%d/tgt=%s/m=%d" % (prefix, cfg["k"], cfg["iface"], cfg["d"], cfg["tgt"], cfg["m"])
     if real != "user":
         b += "/real=" + real
+    if cfg.get("src", "global") != "global":
+        b += "/src=" + cfg["src"]
     return b
 
 
@@ -541,21 +749,33 @@ def arm_of(cfg, a):
     return "lp", (a["k"] if cfg["k"] == "CW" else 1)
 
 
-def run_behaviour(ctx, beh, rows, sv0, root, real="user", sigprefix="replay", salt=0, flip=False, stats=None, corrupt=False):
+def run_behaviour(ctx, beh, rows, sv0, root, real="user", sigprefix="replay", salt=0, flip=False, stats=None, corrupt=False,
+                  srcstats=None, collapse=False, drop_source=False):
     """Execute one spec behaviour on the real sampler; compare after every action.  Returns number of transitions run.
     flip=True (binding self-test only): script the uniform of the opposite decision class.
     Behaviours with an action Abort (aborted transition): the target raises at the evaluation the spec names; afterwards the
     caches must belong to the point (fresh evaluation by an un-instrumented target), the point must be one of the kernel
     states the spec allows, and - when the real state is the one this behaviour continues from - the following
     transitions must conform like any other (signatures abort/...).  corrupt=True (binding self-test only): the cache is
-    made stale after the abort."""
+    made stale after the abort.
+    Behaviours of a configuration with a randomness source other than numpy's global stream (cfg.src): the noise is served
+    by the generator handed to the code (rng= / drawn from by the user-supplied proposal, prior or callable) as a stream of
+    COMPONENTS; the recorded calls decide which stream was used (srcstats); everything else is compared as usual
+    (signatures .../src=<source>/...).  collapse=True / drop_source=True (binding self-tests only): the generator hands one
+    value to all components / the source option is not given to the sampler."""
     cfg = beh["cfg"]
     k = cfg["k"]
     base = _base(sigprefix, cfg, real)
     if stats is None:
         stats = new_abort_stats()
+    if srcstats is None:
+        srcstats = new_source_stats()
     case = {"kind": "beh", "cfg": cfg, "prog": beh["prog"], "rows": rows, "sv0": sv0, "root": root, "real": real, "salt": salt}
-    drv = driver(cfg, rows, sv0, real)
+    drv = driver(cfg, rows, sv0, real, drop_source)
+    if drv.G is not None:
+        drv.G.stream.collapse = bool(collapse)
+    src = cfg.get("src", "global")
+    skey = "%s/%s/%s%s" % (k, cfg["iface"], src, "" if real == "user" else "/real=" + real)
     try:
         drv.construct()
     except MachineryError:
@@ -700,6 +920,55 @@ def run_behaviour(ctx, beh, rows, sv0, root, real="user", sigprefix="replay", sa
         # scripted draws left unused: judged AFTER the comparisons below - a kernel that does not draw its uniform and
         # decides wrongly must be reported as a violation of the property, not as a machinery error
         done += 1
+        if drv.G is not None:
+            # ---- which stream delivered the noise: the recorded calls of the given generator / of numpy's global stream ----
+            use = drv.source_use()
+            if use["stub_normal"] == 0 and use["glob_normal"] > 0:
+                _bump(srcstats["ignored"], skey)
+                if src in SOURCE_DOC:
+                    ctx.mismatch(base + "/source", dict(case, pos=pos),
+                                 "the noise of the transition was drawn from numpy's global stream %s, none from the user-supplied "
+                                 "%s (documented: %s)" % (use["glob_calls"], src, SOURCE_DOC[src]),
+                                 expected={"calls of the supplied object's generator": ">= 1"}, observed=use["stub_calls"])
+                    return done
+                # rng= of cuqi.sampler.ULA / MALA is a constructor argument the docstrings do not describe: which stream is
+                # used is not asserted (observation); the transition is judged against the specification either way
+            elif use["stub_normal"] > 0:
+                _bump(srcstats["driven"], skey)
+                if distinct_noise(cfg, pairs):
+                    _bump(srcstats["distinct"], skey)
+                    if len(sv0) > 1 and len({tuple(q) for q in cur_sv}) > 1:
+                        _bump(srcstats["percomp"], skey)
+                srcstats["calls"].setdefault(skey, use["stub_calls"])
+                if use["glob_normal"]:
+                    _bump(srcstats["global_also"], skey)
+            if use["short"]:
+                _bump(srcstats["over_asked"], skey)
+            if use["stub_uniform"] or use["glob_uniform"]:
+                _bump(srcstats["uniform_from"], "%s: %s" % (skey, "generator" if use["stub_uniform"] else "numpy global stream"))
+        if real == "ula":
+            # ---- the unadjusted Langevin kernel with the rng= option (cuqi.sampler.ULA): no decision; the proposal must be
+            #      the modelled one (dim-dimensional Brownian increment, ULA docstring) and the returned state the evaluation
+            #      at it
+            p = pairs[0][0]
+            y = np.array(p["y"], dtype=float)
+            seen = T.evals[n0:] if T is not None else []
+            if not any(close(y, q) for q in seen):
+                ctx.mismatch(base + "/proposal", dict(case, pos=pos),
+                             "the target was not evaluated at the proposal of the modelled mechanism (noise xi=%s; calls of the "
+                             "generator: %s)" % (p["xi"], drv.source_use()["stub_calls"] if drv.G is not None else None),
+                             expected=y, observed=seen)
+                return done
+            got = drv.state()
+            exp = {"x": y, "clp": ext(p["tv"]), "cgrad": vec(p["gy"])}
+            for q in ("x", "clp", "cgrad"):
+                if not close(got[q], exp[q]):
+                    ctx.mismatch("%s/accept_state/%s" % (base, CACHE_NAME[q]), dict(case, pos=pos),
+                                 "after an unadjusted Langevin transition: %s differs from the specification's proposal / its "
+                                 "evaluation" % CACHE_NAME[q], expected=exp[q], observed=got[q])
+                    return done
+            srcstats["unadjusted"] += 1
+            return done
         last_d = pairs[-1][1]
         exp = expect_state(cfg, last_d, None if (warm and cfg["iface"] == "exp") else cur_sv, const)
         prev_exp = exp
@@ -714,7 +983,9 @@ def run_behaviour(ctx, beh, rows, sv0, root, real="user", sigprefix="replay", sa
                 if k == "PCN" and len(p.get("yraw", [])) and any(close(vec(p["yraw"]), q) for q in seen):
                     clause = "proposal/ProposalUsesRawPriorDraw"
                 ctx.mismatch("%s/%s" % (base, clause), dict(case, pos=pos),
-                             "the target was not evaluated at the proposal of the modelled mechanism (noise xi=%s)" % (p["xi"],),
+                             "the target was not evaluated at the proposal of the modelled mechanism (noise xi=%s)%s" % (
+                                 p["xi"], "" if drv.G is None else "; calls of the given generator: %s, of numpy's global stream: %s" % (
+                                     drv.G.stream.calls(), drv.glob.calls())),
                              expected=y, observed=seen)
                 return done
             if d["cls"] == "Any":
